@@ -70,7 +70,7 @@ def oracle(ctx, n_cases):
         # the fit is scale-invariant: coordinates in A, but also tiny / large units
         sc = rng.choice([1e-6, 1e-4, 1e-2, 1.0, 1.0, 1.0, 1.0, 100.0])
         hist['scale %g' % sc] = hist.get('scale %g' % sc, 0) + 1
-        mode = rng.choice(['random', 'random', 'random', 'origin', 'halfturn', 'tiny', 'mirror'])
+        mode = rng.choice(['random', 'random', 'random', 'origin', 'halfturn', 'tiny', 'mirror', 'exactsym'])
         hist['mode ' + mode] = hist.get('mode ' + mode, 0) + 1
         fixed_R = None
         if mode == 'halfturn':
@@ -87,6 +87,25 @@ def oracle(ctx, n_cases):
             GT = [[G[j][i] for j in range(3)] for i in range(3)]
             GH = [[sum(G[i][m] * half[m][j] for m in range(3)) for j in range(3)] for i in range(3)]
             fixed_R = [[sum(GH[i][m] * GT[m][j] for m in range(3)) for j in range(3)] for i in range(3)]
+        elif mode == 'exactsym':
+            # symmetric fragments in standard orientation (tetrahedron, octahedron with one to three different bond lengths, with or without the
+            # central atom and off-axis atoms) turned by a rotation of the cube group, in exactly representable numbers: equal or vanishing
+            # diagonal elements of the 4x4 form, the regime in which a Jacobi sweep needs 45 degree rotations
+            kind = rng.choice(['tetra', 'octa', 'octa3'])
+            if kind == 'tetra':
+                src = [[1.0, 1.0, 1.0], [1.0, -1.0, -1.0], [-1.0, 1.0, -1.0], [-1.0, -1.0, 1.0]]
+            else:
+                l1, l2, l3 = (2.0, 2.0, 2.0) if kind == 'octa' else (2.0, 2.25, 2.5)
+                src = [[l1, 0.0, 0.0], [-l1, 0.0, 0.0], [0.0, l2, 0.0], [0.0, -l2, 0.0], [0.0, 0.0, l3], [0.0, 0.0, -l3]]
+            if rng.random() < 0.5:
+                src.append([0.0, 0.0, 0.0])
+            if rng.random() < 0.4:
+                src += [[1.0, 1.0, 0.5], [-1.0, -1.0, -0.5]]
+            sh = [float(rng.randint(-3, 3)) for _ in range(3)]
+            src = [[(p[k] + sh[k]) * sc for k in range(3)] for p in src]
+            n = len(src)
+            from gen import spacegroups as _sg
+            fixed_R = [list(map(float, row)) for row in rng.choice([m for m in _sg.SIGNED_PERMS if abs(det3([list(r) for r in m]) - 1) < 1e-9])]
         elif mode == 'tiny':
             # the fragment has almost the orientation of the target: rotation angles of 1e-5 .. 3e-3 rad
             src = [[v * sc for v in p] for p in gen_set(rng, n)]
@@ -142,6 +161,10 @@ def oracle(ctx, n_cases):
         qf.jacobi = spy
         try:
             q, U, _ = qf.qtrfit(copy.deepcopy(cs), copy.deepcopy(ct), 30)
+        except Exception as ex:
+            common.add_violation(ctx, 'qtrfit raises on valid centred point sets', dict(case, mode=mode), 'a rotation', '%s: %s' % (type(ex).__name__, ex))
+            qf.jacobi = orig
+            continue
         finally:
             qf.jacobi = orig
         ev += 1
@@ -225,7 +248,11 @@ def oracle(ctx, n_cases):
         if minor > 1e-3 * tr * tr:
             ev += 1
             case['fit_fragment'] = {'subset': sel, 'source_rows_shared_with_fragment': alias, 'mode': mode}
-            rf, rms = qf.fit_fragment(frag, sub_src, copy.deepcopy(sub_tgt))
+            try:
+                rf, rms = qf.fit_fragment(frag, sub_src, copy.deepcopy(sub_tgt))
+            except Exception as ex:
+                bad('fit_fragment raises on a valid fragment', 'a placed fragment', '%s: %s' % (type(ex).__name__, ex))
+                continue
             rf = [list(p) for p in rf]
             after = rmsd([rf[i] for i in sel], [tgt[i] for i in sel])
             if abs(after - rms) > 1e-8 * sc:
